@@ -254,6 +254,7 @@ impl<const N: u32> From<&Q32E2> for PxE2<{ N }> {
                 } else {
                     if reg_a == (N - 2) {
                         bit_n_plus_one = (exp_a & 0x2) != 0;
+                        bits_more |= (exp_a & 0x1) != 0;
                         exp_a = 0;
                     } else if reg_a == (N - 3) {
                         bit_n_plus_one = (exp_a & 0x1) != 0;
@@ -262,6 +263,7 @@ impl<const N: u32> From<&Q32E2> for PxE2<{ N }> {
                     }
                     if frac64_a > 0 {
                         frac_a = 0;
+                        bits_more = true;
                     }
                 }
             } else {
